@@ -45,6 +45,7 @@ class BuildResult:
     def __init__(self):
         self.tables_ok = True
         self.translator_ok = True
+        self.failed_translators: list[str] = []
         self.driver_ok = True
         self.proof_ok = True
         self.log = ""
@@ -71,12 +72,18 @@ def build(pid: str, modules: list[str], theorems: list[str], tier: str = "quick"
         if rc != 0:
             res.tables_ok = False
         # translator for the lookup classes (Python source -> Lean): a source outside the translated fragment is a broken tie
-        for script in ("gen_translate.py", "gen_translate_flows.py", "gen_translate_funcs.py", "gen_translate_enc.py"):
+        # the translators. A source that left a translator's fragment breaks the tie of the properties whose theorems rest on
+        # that translation (and on the translations built on it) — not of every property.
+        affected = {"gen_translate.py": {"Translated", "TranslatedFlows", "TranslatedEnc"}, "gen_translate_flows.py": {"TranslatedFlows"},
+                    "gen_translate_funcs.py": {"TranslatedFuncs", "TranslatedEnc"}, "gen_translate_enc.py": {"TranslatedEnc"}}
+        for script, mods in affected.items():
             rc, out = sh([sys.executable, str(VERIF / "harness" / script)], cwd=VERIF / "harness")
             res.log += out
             if rc != 0:
-                res.tables_ok = False
-                res.translator_ok = False
+                res.failed_translators.append(script)
+                if mods & set(modules):
+                    res.tables_ok = False
+                    res.translator_ok = False
         rc, out = sh(["lake", "build", "JellyModel", "jellydrv"], cwd=LEAN_DIR)
         res.log += out
         if rc != 0:
@@ -320,7 +327,8 @@ def finish(ctx: Ctx, b: BuildResult, spec: dict) -> int:
         violations = 1
         path = write_replay(pid, "tie_broken", dict(
             property=pid, kind="no-failing-input-found",
-            proof_build_ok=b.proof_ok, tables_ok=b.tables_ok, translator_ok=b.translator_ok, failed_modules=b.failed_modules,
+            proof_build_ok=b.proof_ok, tables_ok=b.tables_ok, translator_ok=b.translator_ok, failed_translators=b.failed_translators,
+            failed_modules=b.failed_modules,
             missing_theorems=b.missing, forbidden=b.forbidden_hits,
             disallowed_axioms={t: a for t, a in b.axioms.items() if not set(a) <= ALLOWED_AXIOMS},
             first_disagreements=ctx.disagreements[:3], build_log_tail=b.log[-3000:], seed=ctx.seed, tier=ctx.tier))
